@@ -1046,3 +1046,82 @@ package mcp
 //@   modifies *, notifcalls, pedcalls, pedsnap, lastline, bodyclosed(httpResp.Body)
 //@   loop 3 invariant[C10 every-data-line-read-so-far-was-processed-exactly-once] rdprog > old(rdprog) ==> (hasPrefix(strings.TrimSpace(lastline), "data:") ? pedcalls == pedsnap + 1 : pedcalls == pedsnap)
 //@   before call processEventData#1 assert[C10 the-event-data-is-what-follows-the-data-prefix-of-the-line-just-read] hasPrefix(strings.TrimSpace(lastline), "data:") && pedcalls == pedsnap
+
+// ---------------------------------------------------------------------------
+// C05 — server-initiated traffic: routing by session, accounting, pending entries.
+// sendattempts counts the calls of httpServerHandler.sendNotification, sendoks those of
+// them that returned nil ("the session was reached").
+
+//@
+//@ ghost stable sendattempts int
+//@ ghost stable sendoks int
+//@ func httpServerHandler.sendNotification
+//@   counted sendattempts
+//@   counted sendoks when result == nil
+//@   modifies *, sendattempts, sendoks
+//@
+//@ func Server.sendNotificationToSessions
+//@   modifies *, sendattempts, sendoks
+//@   loop 1 invariant[C05] sendattempts - old(sendattempts) == rangeindex + 1 && rangeindex + 1 <= len(sessions) && successCount == sendoks - old(sendoks) && successCount + failedCount == sendattempts - old(sendattempts) && (failedCount > 0 ==> lastError != nil) && successCount >= 0 && failedCount >= 0
+//@   before call sendNotification#1 assert[C05 every-listed-session-is-addressed-once-in-order] arg1 == sessions[sendattempts - old(sendattempts)] && arg2 == notification
+//@   ensures[C05 success-count-is-the-number-of-sessions-reached] ret0 == sendoks - old(sendoks) && ret0 + ret1 == len(sessions) && sendattempts == old(sendattempts) + len(sessions)
+//@   ensures[C05 a-failure-is-reported-with-its-error] ret0 >= 0 && ret1 >= 0 && (ret1 > 0 ==> ret2 != nil)
+//@
+//@ func Server.SendNotification
+//@   modifies *, sendattempts, sendoks
+//@   ensures[C05 exactly-one-send-to-the-addressed-session] !old(s.config.isStateless) ==> sendattempts == old(sendattempts) + 1
+//@   ensures[C05 nil-means-the-session-was-reached] !old(s.config.isStateless) && result == nil ==> sendoks == old(sendoks) + 1
+//@   ensures[C05 stateless-server-sends-nothing] old(s.config.isStateless) ==> result != nil && sendattempts == old(sendattempts)
+//@
+//@ func Server.BroadcastNotification
+//@   modifies *, sendattempts, sendoks
+//@   ensures[C05 reported-count-is-the-number-of-sessions-reached] ret1 == nil ==> ret0 == sendoks - old(sendoks)
+//@   ensures[C05 a-failed-broadcast-reports-zero] ret1 != nil ==> ret0 == 0
+//@
+//@ ghost stable filtercalls int
+//@ ghost stable selected int
+//@ func Server.sendNotificationToFilteredSessions
+//@   callspec filter
+//@     counted filtercalls
+//@     counted selected when result
+//@     modifies filtercalls, selected
+//@   end
+//@   modifies *, sendattempts, sendoks, filtercalls, selected
+//@   loop 1 invariant[C05] rangeindex + 1 <= len(sessions) && (filter != nil ==> filtercalls - old(filtercalls) == rangeindex + 1 && sendattempts - old(sendattempts) == selected - old(selected)) && (filter == nil ==> sendattempts - old(sendattempts) == rangeindex + 1) && successCount == sendoks - old(sendoks) && successCount + failedCount == sendattempts - old(sendattempts) && (failedCount > 0 ==> lastError != nil) && successCount >= 0 && failedCount >= 0
+//@   before call filter#1 assert[C05 the-filter-sees-every-session-once-in-order] arg0 == sessions[rangeindex + 1]
+//@   before call sendNotification#1 assert[C05 the-selected-session-is-the-one-addressed] arg1 == sessions[rangeindex + 1] && arg2 == notification
+//@   ensures[C05 success-count-is-the-number-of-selected-sessions-reached] ret0 == sendoks - old(sendoks) && ret0 >= 0 && ret1 >= 0 && ret0 + ret1 == sendattempts - old(sendattempts)
+//@   ensures[C05 every-selected-session-is-attempted-exactly-once] (filter != nil ==> filtercalls - old(filtercalls) == len(sessions) && sendattempts - old(sendattempts) == selected - old(selected)) && (filter == nil ==> sendattempts - old(sendattempts) == len(sessions))
+//@
+// Routing (Streamable HTTP): a notification or request for session S is written to the
+// stream registered for S, under that stream's write lock; the pending entry of a
+// server-issued request is keyed by (S, id), is looked up under the posting session's
+// key, and is gone when SendRequest returns.
+//@ ghost lastkey string
+//@ ghost lastkeysid string
+//@ ghost lastkeyid string
+//@ func pendingRequestKey
+//@   function
+//@   records lastkey ret0
+//@   records lastkeysid sessionID
+//@   records lastkeyid requestID
+//@   modifies lastkey, lastkeysid, lastkeyid
+//@
+//@ func httpServerHandler.sendNotificationToGetSSE
+//@   before call sendNotification#1 assert[C05 written-to-the-stream-registered-for-the-addressed-session] conn == atlock(h.getSSEConnections[sessionID]) && arg1 == conn.writer && arg2 == asany(notification) && held(conn.writeLock) == 2
+//@
+//@ func httpServerHandler.SendRequest
+//@   before call sendRequest#1 assert[C05 written-to-the-stream-registered-for-the-addressed-session] conn == atlock(h.getSSEConnections[sessionID]) && arg1 == conn.writer && arg2 == request && held(conn.writeLock) == 2
+//@   before call RegisterRequest#1 assert[C05 pending-entry-is-bound-to-the-addressed-session] arg1 == lastkey && lastkeysid == sessionID
+//@
+//@ func httpServerHandler.handlePostResponse
+//@   before call DeliverResponse#1 assert[C05 answer-is-looked-up-under-the-posting-session] arg1 == lastkey && lastkeysid == session.GetID() && lastkeyid == requestIDStr
+//@
+//@ type responseManager
+//@   transient[C05] pendingRequests except RegisterRequest
+//@
+//@ type SSEServer
+//@   transient[C05] responses
+//@ type StdioServer
+//@   transient[C05] responses
+//@
